@@ -74,10 +74,13 @@ def val_for(r, cls, name, present):
         out = []
         prev_num = False
         for _ in range(r.choice([0, 1, 2, 3, 4]) if present else 0):
-            c = r.choice(['s', 'd', 'b', 'n', 'a', 'acc', 'n', 'a', 'ne'])
-            if c == 'ne':
+            c = r.choice(['s', 'd', 'b', 'n', 'a', 'acc', 'n', 'a', 'ne', 'ae'])
+            if c == 'ae':
+                # an amount whose number is an expression (signed, several terms)
+                v = edits.P().parse(r.choice(['-2 - 1 USD', '+3 * 2 + 1 EUR', '(1 + 2) USD', '4 - 1 USD', '-(1) GBP']), models.Amount)
+            elif c == 'ne':
                 # a number given as an expression node (any shape the grammar allows, e.g. ending in a parenthesis)
-                v = edits.P().parse(r.choice(['(1 + 2)', '2 * (1 + 3)', '10 / (2 + 3)', '-(4)', '7 - 2', '(3)', '+5 * 2']), models.NumberExpr)
+                v = edits.P().parse(r.choice(['(1 + 2)', '2 * (1 + 3)', '10 / (2 + 3)', '-(4)', '7 - 2', '(3)', '+5 * 2', '-5 + 3', '-2 - 1', '+1 + 2 * 3', '- 4 * 2 - 1']), models.NumberExpr)
             else:
                 v = {'s': r.choice(docs.STRINGS), 'd': datetime.date(2020, 1, 2), 'b': r.random() < 0.5,
                      'n': D(r.choice(['1', '-2', '3.5', '-0.5'])), 'a': models.Amount.from_value(D(r.choice(['1', '-4'])), 'USD'),
